@@ -6,6 +6,7 @@ Driver for C36. One case = one run of the real `local.Save` in a child process k
 system call. Records:
   setup <type> <size> <premk> <prev none|same> <syscall> <when>
   data <size> <sum>                    size and short hash of the data being saved
+  name <hex final name>
   trace <event>*                       completed file system calls of the child on the repository:
                                        create create-failed mkdir prealloc:<n> write:<n> fsyncFile close
                                        rename fsyncDir chmod unlinkTmp open-final-for-writing write-final:<n>
@@ -22,6 +23,14 @@ open Driver Restic.Model.LocalFS
 namespace C36
 
 def genMain : List Step := mainSteps Restic.Gen.localSave_calls
+def genInfix : List Char := (tmpInfixOf Restic.Gen.localSave_literals).getD []
+
+def isDigitC (c : Char) : Bool := '0' ≤ c && c ≤ '9'
+
+/-- `name` = final ++ regenerated infix ++ decimal digits -/
+def isTempNameOf (final name : List Char) : Bool :=
+  let pre := final ++ genInfix
+  name.take pre.length == pre && (name.drop pre.length).all isDigitC && name.length > pre.length
 
 structure Obs where
   tmp : Option (Nat × Bool)      -- size, content equals the data
@@ -133,6 +142,12 @@ def handle (c : Case) : Verdict :=
         let nameDiff := files.find? fun f =>
           parsesAsID ((unhexStr (f.getD 2 "-")).getD "").toList != (f.getD 5 "" == "1")
         if nameDiff.isSome then .differ "parseID" s!"{(unhexStr ((nameDiff.get!).getD 2 "-")).getD "?"}" else
+        -- every leftover name that is not the final one is a temporary name built with the infix
+        -- regenerated from the source (tie between the `literals` fact and the real names)
+        let finalName := ((c.find "name").bind fun r => unhexStr (r.getD 1 "-")).getD ""
+        let strange := files.find? fun f => f.getD 1 "" != "final" &&
+          !isTempNameOf finalName.toList ((unhexStr (f.getD 2 "-")).getD "").toList
+        if strange.isSome then .differ "temp-name" s!"{(unhexStr ((strange.get!).getD 2 "-")).getD "?"} is not <final>{String.ofList genInfix}<digits>" else
         -- the call sequence is a prefix of the step order regenerated from the source
         let want := normKinds size (genMain.map stepKind)
         let got := normKinds size (evs.map kindOf)
